@@ -108,6 +108,16 @@ def run(r: core.Run, mode, prop_module, what):
                          "what": "replayed history still contradicts the specification"})
         return
 
+    # known findings of this property: replay each listed witness; it is reported as KNOWN-FINDING
+    # while it reproduces (implementation contradicts the specification on exactly that history)
+    for f in r.findings.get("findings", []):
+        if f.get("property") == r.prop and f.get("ops"):
+            try:
+                if spec_fails(f["ops"], f"{r.prop}-known") is not None:
+                    r.known(f["id"], f["what"])
+            except core.TieBroken:
+                pass
+
     tie = None
     spec_bad = []
     try:
